@@ -842,6 +842,41 @@ def extract_mutation_loads_pass_database(repo):
     return ok
 
 
+def extract_copy_guards(repo):
+    """SQLiteAlterTableSQLResult.to_sql: (a) the tests under which an item's initial value is registered in
+    `new_initial` (one per `new_initial[...] = initial` assignment: the innermost enclosing `if`), and the test of
+    the `if` that encloses the whole body of the loop over `new_initial`; (b) the test that chooses
+    `coalesce(col, %s)` over a bare `%s` for a bound initial value"""
+    tree = ast.parse(_src(repo, 'django_evolution/db/sqlite3.py'))
+    cls = _find_class(tree, 'SQLiteAlterTableSQLResult')
+    fn = _find_func(cls, 'to_sql')
+    parents = {}
+    for n in ast.walk(fn):
+        for c in ast.iter_child_nodes(n):
+            parents[c] = n
+    guards = []
+    for n in ast.walk(fn):
+        if isinstance(n, ast.Assign) and len(n.targets) == 1 and isinstance(n.targets[0], ast.Subscript) and \
+                ast.unparse(n.targets[0].value) == 'new_initial':
+            p = parents.get(n)
+            while p is not None and not isinstance(p, ast.If):
+                p = parents.get(p)
+            guards.append(ast.unparse(p.test) if p is not None and n in p.body else '<unguarded>')
+    loop = [n for n in ast.walk(fn) if isinstance(n, ast.For) and 'new_initial' in ast.unparse(n.iter)]
+    if len(loop) != 1:
+        raise ExtractError('to_sql: expected one loop over new_initial')
+    body = [st for st in loop[0].body if not isinstance(st, ast.Expr)]
+    loop_guard = ast.unparse(body[0].test) if len(body) == 1 and isinstance(body[0], ast.If) and not body[0].orelse \
+        else '<none>'
+    coalesce = []
+    for n in ast.walk(loop[0]):
+        if isinstance(n, ast.If) and any(isinstance(c, ast.Constant) and isinstance(c.value, str) and 'coalesce(' in c.value
+                                         for st in n.body for c in ast.walk(st)) and \
+                not any(isinstance(x, ast.If) for st in n.body for x in ast.walk(st)):
+            coalesce.append(ast.unparse(n.test))
+    return {'register': sorted(set(guards)), 'loop_guard': loop_guard, 'coalesce': sorted(set(coalesce))}
+
+
 def extract_new_models_decided_by(repo):
     """EvolveAppTask.prepare: `use_migrations = supports_migrations and <name> == UpgradeMethod.MIGRATIONS` - which
     name decides whether the tables of new models are created by the package or left to the app's migrations"""
@@ -1024,6 +1059,14 @@ def regenerate(repo, outdir):
     flags['mutation_loads_pass_database'] = mlp
     parts.append('/-- EvolveAppTask.prepare (preview) and _build_batches (execution) load the mutations for evolver.database_name -/')
     parts.append('def mutationLoadsPassDatabase : Bool := ' + ('true' if mlp else 'false'))
+    cg = extract_copy_guards(repo)
+    flags['copy_guards'] = cg
+    parts.append('/-- SQLite rebuild: the tests under which an initial value is registered for the copy, the test around the '
+                 'body of the loop that turns registered values into SELECT expressions, and the test that picks '
+                 'coalesce(column, ?) over a bare placeholder -/')
+    parts.append('def copyRegisterGuards : List String := ' + lean_list(lean_str(g) for g in cg['register']))
+    parts.append('def copyLoopGuard : String := ' + lean_str(cg['loop_guard']))
+    parts.append('def copyCoalesceTests : List String := ' + lean_list(lean_str(g) for g in cg['coalesce']))
     nmd = extract_new_models_decided_by(repo)
     flags['new_models_decided_by'] = nmd
     parts.append('/-- the value EvolveAppTask.prepare compares with UpgradeMethod.MIGRATIONS to leave new models to migrations -/')
